@@ -106,6 +106,7 @@ def handle(mod: Any, pid: str, case: Any, tier: str, stats: Stats, stage: str) -
     stats.evaluations += 1
     stats.stage_counts[stage] += 1
     stats.comparisons += getattr(out, "comparisons", 0)
+    stats.extra["nontrivial_instance_comparisons"] = stats.extra.get("nontrivial_instance_comparisons", 0) + getattr(out, "nontrivial_instances", 0)
     stats.status[out.status] += 1
     stats.origins[getattr(case, "origin", "?").split(":")[0]] += 1
     if out.status == "discard":
